@@ -94,4 +94,7 @@ def run(tier="quick", seed=0, use_cache=True):
     from ..rules import typeexact
     typeexact.extend(res, use_cache)
     res.explanation += ' TYPE-EXACT: state loading classifies children through subclass-tolerant type tests (an application subclass of a leaf type must load).'
+    from ..rules import convhelpers
+    convhelpers.extend(res, use_cache, ("TO-OBJECT",))
+    res.explanation += ' TO-OBJECT: integral conversions into PyLong_From* constructors are value preserving, so __getstate__ emits the stored numbers.'
     return res
